@@ -421,6 +421,104 @@ theorem c05_sheet_not_stored (inflate : Dat.Inflate) (disk : Disk) (a : Archive)
       rw [sheetPagePath, c05_filename]; exact hl
     simp only [GameData.readExcelSheet, hp, extractFull_absent inflate disk a hr hw _ hl']
 
+/-! ### non-vacuity: a concrete installation -/
+section
+open Physis.Spec.SqPackData
+/-- "Quest/Item" -/
+def xName : Bytes := [0x51, 0x75, 0x65, 0x73, 0x74, 0x2f, 0x49, 0x74, 0x65, 0x6d]
+def xRoot : List (Bytes × Int) := [([0x41], 1), (xName, -2)]
+
+/-- root list in two raw blocks -/
+def xB1 : List Block :=
+  [⟨(encodeRootList 2 xRoot).take 7, none⟩, ⟨(encodeRootList 2 xRoot).drop 7, none⟩]
+/-- header: a raw block and a deflated one (RFC 1951 stored stream) -/
+def xB2 : List Block :=
+  [⟨(encodeExh dSchema).take 10, none⟩,
+   ⟨(encodeExh dSchema).drop 10, some (Spec.Deflate.storedBlock ((encodeExh dSchema).drop 10))⟩]
+def xB3 : List Block := [⟨encodeExd dSchema dRows, none⟩]
+
+def xDat : Bytes := packStandard xB1 ++ packStandard xB2 ++ packStandard xB3
+
+/-- `exd/quest/item_0_en.exd` -/
+def xPagePath : Bytes := lower (pagePath xName .en ⟨0, 2⟩)
+
+def xIndex : IndexFile :=
+  { platform := .win32, kind := .index2,
+    entries := [⟨.full (jamcrc rootListPath), false, 0, 0⟩,
+                ⟨.full (jamcrc (headerPath xName)), false, 0, 384⟩,
+                ⟨.full (jamcrc xPagePath), false, 0, 768⟩],
+    dataSeg := [], folderSeg := [] }
+
+def xArch : Archive := { platform := .win32, dirs := [baseDir], slot := fun _ _ _ _ => .file xIndex }
+def xDatName : Bytes := datName .win32 0 .exd 0 0
+def xDisk : Disk := fun _ n => if n = xDatName then some xDat else some (encodeIndex xIndex)
+
+/-- the three entries sit at offsets 0, 384, 768 of the dat file -/
+example : (packStandard xB1).length = 384 ∧ (packStandard xB2).length = 384 := by decide +kernel
+private theorem xIndex_wf : xIndex.wf = true := by decide +kernel
+private theorem xArch_wf : xArch.WF := ⟨by decide, fun _ _ _ _ _ _ => xIndex_wf⟩
+
+private theorem indexName_ne (e : Nat) (c : Category) (ch : Nat) (k : Kind) :
+    indexName .win32 e c ch k ≠ xDatName := by
+  intro h
+  have h2 : (indexName .win32 e c ch k).getLast? = xDatName.getLast? := by rw [h]
+  have h3 : xDatName.getLast? = some 48 := by decide +kernel
+  rw [h3] at h2
+  cases k <;> simp [indexName] at h2
+
+private theorem xRealises : Realises xDisk xArch := by
+  intro e c ch k _ _
+  simp only [xDisk, xArch, indexName_ne, if_false, Slot.bytes]
+
+
+private theorem xDeflated : ∀ bs ∈ [xB1, xB2, xB3], ∀ b ∈ bs, Dat.Deflated C02.storedInflate b := by
+  intro bs hbs b hb c hc
+  simp only [List.mem_cons, List.mem_nil_iff, or_false] at hbs
+  rcases hbs with rfl | rfl | rfl <;>
+    simp only [xB1, xB2, xB3, List.mem_cons, List.mem_nil_iff, or_false] at hb
+  · rcases hb with rfl | rfl <;> cases hc
+  · rcases hb with rfl | rfl
+    · cases hc
+    · cases hc; decide +kernel
+  · subst hb; cases hc
+
+private theorem xStores1 : StoresStd C02.storedInflate xDisk xArch rootListPath (encodeRootList 2 xRoot) :=
+  ⟨⟨0, .exd, 0, 0, 0⟩, xB1, [], packStandard xB2 ++ packStandard xB3, by decide +kernel, by decide +kernel,
+    xDeflated xB1 (by simp), rfl, by decide +kernel, by decide +kernel, by decide +kernel⟩
+
+private theorem xStores2 : StoresStd C02.storedInflate xDisk xArch (headerPath xName) (encodeExh dSchema) :=
+  ⟨⟨0, .exd, 0, 0, 384⟩, xB2, packStandard xB1, packStandard xB3, by decide +kernel, by decide +kernel,
+    xDeflated xB2 (by simp), by decide +kernel, by decide +kernel, by decide +kernel, by decide +kernel⟩
+
+private theorem xStores3 : StoresStd C02.storedInflate xDisk xArch (lower (pagePath xName .en dSchema.pages[0]))
+    (encodeExd dSchema dRows) :=
+  ⟨⟨0, .exd, 0, 0, 768⟩, xB3, packStandard xB1 ++ packStandard xB2, [], by decide +kernel, by decide +kernel,
+    xDeflated xB3 (by simp), by decide +kernel, by decide +kernel, by decide +kernel, by decide +kernel⟩
+
+
+/-- non-vacuity of `c05_sheet_from_archive` (and of `c05_names_from_archive`,
+`c05_header_from_archive`, `c05_page_from_archive`): an installation whose `0a0000.win32.dat0`
+holds the root list (two raw blocks), the header of `dSchema` (a raw and a deflated block) and its
+English page 0 — sheet name `Quest/Item`, stored under `exd/quest/item.exh` and
+`exd/quest/item_0_en.exd` — satisfies every hypothesis; hence after any two histories the header
+and the page come back and both rows of `dRows` read back cell by cell. -/
+example (cs1 cs2 : List Call) :
+    ∃ exh exd,
+      (readExcelSheetHeader C02.storedInflate xDisk (runCalls C02.storedInflate xDisk (fresh xArch) cs1) xName).1
+        = some (some exh) ∧
+      (GameData.readExcelSheet C02.storedInflate xDisk (runCalls C02.storedInflate xDisk (fresh xArch) cs2) xName exh
+        (toModelLang .en) 0).1 = some (some exd) ∧
+      (∀ r ∈ dRows, singleSubrow dSchema r = false → readRow exd exh r.id = .ok (r.subs.map (·.map toData))) ∧
+      (∀ id, id ∉ dRows.map (·.id) → readRow exd exh id = .error .none) :=
+  c05_sheet_from_archive C02.storedInflate xDisk xArch xRealises xArch_wf 2 xRoot (by decide) xName
+    (by decide) dSchema (by decide) 0 (by decide) .en dRows (by decide +kernel) xStores1 xStores2 xStores3 cs1 cs2
+
+/-- non-vacuity of `c05_sheet_not_stored`: `B` is not listed; the German page is not stored -/
+example : ([0x42] : Bytes) ∉ xRoot.map (·.1) ∧ locate xArch (headerPath [0x42]) = none ∧
+    locate xArch (pagePath xName .de dSchema.pages[0]) = none := by decide +kernel
+
+end
+
 end archive
 
 /-- (T2) The model's code tables are the compiled reader's: the harness pushes **every** u16 /
